@@ -193,3 +193,7 @@ Print Assumptions C07_exprWalker_noskip_is_expr_nodes.
 Theorem C07_stmtWalker_noskip_is_stmt_nodes : forall f l, walk_stmt decl_entered (fun _ => false) f = R l -> l = stmt_nodes f.
 Proof. exact (walk_stmt_noskip). Qed.
 Print Assumptions C07_stmtWalker_noskip_is_stmt_nodes.
+
+Theorem C07_unlambda_pos_valid : forall f, wf f = true -> forall w, In w (warnings (run_unlambda f)) -> In (w_pos w) (token_starts f).
+Proof. exact (fun f W w H => cause_pos_valid f w W (unlambda_cause f w H)). Qed.
+Print Assumptions C07_unlambda_pos_valid.
